@@ -47,7 +47,7 @@ func (handler *Resource) ServeHTTP(response http.ResponseWriter, request *http.R
 		}
 	default:
 		log.Debug.Println("Cannot handle HTTP method", request.Method)
-		response.WriteHeader(http.StatusNoContent)
+		response.WriteHeader(http.StatusMethodNotAllowed)
 	}
 }
 
